@@ -119,6 +119,10 @@ class TypePrinter:
     @_visit.register
     def _visit_TupleType(self, ty: TupleType, inside_row: bool) -> str:
         args = ", ".join(self._visit(arg, True) for arg in ty.args)
+        # A 1-tuple needs a trailing comma as in Python, `(int)` would be read back as
+        # the type `int`
+        if len(ty.args) == 1:
+            args += ","
         return f"({args})"
 
     @_visit.register
